@@ -134,25 +134,29 @@ theorem disc_decodeConnectivity : Disc decodeConnectivity := by
   unfold decodeConnectivity; dsimp only
   repeat' (first | exact disc_decodeTopologySplits _ _ | exact disc_startTraversal _ _ _ _ _ | ebdisc_step)
 
-theorem disc_selectScheme (kind : Nat) (pointIds : Array Nat) (parent : Option Parent) :
-    Disc (selectScheme kind pointIds parent) := by
-  unfold selectScheme; dsimp only
+theorem disc_readSchemeEb (kind : Nat) : Disc (readSchemeEb kind) := by
+  unfold readSchemeEb; dsimp only
   repeat' ebdisc_step
 
-theorem disc_readRawValues (pre20 : Bool) (ne nc : Nat) : Disc (readRawValues pre20 ne nc) := by
-  unfold readRawValues; dsimp only
+theorem disc_parentSourcesEb (scheme : Scheme) (pointIds : Array Nat) (parent : Option Parent) :
+    Disc (parentSourcesEb scheme pointIds parent) := by
+  unfold parentSourcesEb; dsimp only
   repeat' ebdisc_step
 
-theorem disc_applyScheme (scheme : Scheme) (nc : Nat) (md : MeshData) (pos : PosSource) (posF : PosSourceF)
-    (vals : Array Int) : Disc (applyScheme scheme nc md pos posF vals) := by
-  unfold applyScheme; dsimp only
+theorem disc_readCodedValuesEb (pre20 : Bool) (nv nc : Nat) : Disc (readCodedValuesEb pre20 nv nc) := by
+  unfold readCodedValuesEb
   repeat' ebdisc_step
 
-attribute [local irreducible] selectScheme readRawValues applyScheme in
+theorem disc_applySchemeEb (ver : Nat) (scheme : Scheme) (md : MeshData) (pos : PosSource) (posF : PosSourceF) (nc : Nat)
+    (vals : Array Int) : Disc (applySchemeEb ver scheme md pos posF nc vals) := by
+  unfold applySchemeEb; dsimp only
+  repeat' ebdisc_step
+
+attribute [local irreducible] readSchemeEb parentSourcesEb readCodedValuesEb applySchemeEb in
 theorem disc_decodeIntegerValuesEb (kind ne nc ac : Nat) (md : MeshData) (pointIds : Array Nat) (parent : Option Parent) :
     Disc (decodeIntegerValuesEb kind ne nc ac md pointIds parent) := by
   unfold decodeIntegerValuesEb; dsimp only
-  repeat' (first | exact disc_selectScheme _ _ _ | exact disc_readRawValues _ _ _ | exact disc_applyScheme _ _ _ _ _ _ | ebdisc_step)
+  repeat' (first | exact disc_readSchemeEb _ | exact disc_parentSourcesEb _ _ _ | exact disc_readCodedValuesEb _ _ _ | exact disc_applySchemeEb _ _ _ _ _ _ _ | ebdisc_step)
 
 theorem disc_createAttributeDecoders (ver numAtt numDecoders : Nat) :
     Disc (createAttributeDecoders ver numAtt numDecoders) := by
